@@ -65,6 +65,9 @@ def child_definition(kind, W):
         return {"StartAt": "Wt", "States": {"Wt": {"Type": "Wait", "Seconds": SLOW, "Next": "C2"}, "C2": T("childfn2", End=True)}}
     if kind == "slow_task":
         return {"StartAt": "C1", "States": {"C1": T("childslow", Next="C2"), "C2": T("childfn2", End=True)}}
+    if kind == "wait_then_slow_task":
+        # the child has been through a Wait that elapsed normally and is blocked on a Task when the parent lets go of it
+        return {"StartAt": "W0", "States": {"W0": {"Type": "Wait", "Seconds": 1, "Next": "C1"}, "C1": T("childslow", Next="C2"), "C2": T("childfn2", End=True)}}
     if kind == "slow_nested":
         return {"StartAt": "Par", "States": {
             "Par": {"Type": "Parallel", "Next": "C2", "Branches": [
@@ -85,7 +88,7 @@ def child_result(kind, inp):
         return "FAILED", "ChildFail"
     if kind == "slow_wait":
         return "SUCCEEDED", {"second": inp}
-    if kind == "slow_task":
+    if kind in ("slow_task", "wait_then_slow_task"):
         return "SUCCEEDED", {"second": {"late": True}}
     if kind == "slow_nested":
         return "SUCCEEDED", {"second": [inp, {"late": True}]}
@@ -97,6 +100,8 @@ def child_duration(sc):
         return sc["child_delay"]
     if k == "fail_state":
         return 0
+    if k == "wait_then_slow_task":
+        return SLOW + 1
     return SLOW
 
 
@@ -306,6 +311,11 @@ def run_child(sc):
                     fails.append(("sync-completion-not-at-child-end", "parent ended in step %d, child in step %d" % (pt["step"], last_child["step"])))
                 if sc["shape"] == "plain" and last_child is not None and abs(pt["t"] - (t0 + dur)) > EPS:
                     fails.append(("sync-completion-instant", "parent ended at +%.3f, child takes %s" % (pt["t"] - t0, dur)))
+        # every child ends at most once, whatever made it end (its own run, or the parent letting go of it)
+        for c in children:
+            ends = [n["body"]["detail"]["status"] for n in w.notifications if (n["body"].get("detail") or {}).get("executionArn") == c and n["body"]["detail"]["status"] != "RUNNING"]
+            if len(ends) > 1 and not sc.get("name"):
+                fails.append(("child-ended-%d-times" % len(ends), "%s: terminal notifications %r" % (c, ends)))
         for e in w.engine_exceptions:
             fails.append(("engine-callback-exception:%s:%s" % (e["type"], e["where"]), json.dumps(e)))
         if w.broker.protocol_errors:
@@ -672,7 +682,7 @@ def strategies():
         "form": st.sampled_from(["async", "sync", "sync", "sync2", "sync2", "sdk_sync"]),
         "parent_type": st.sampled_from(["STANDARD", "STANDARD", "STANDARD", "EXPRESS"]),
         "child_type": st.sampled_from(["STANDARD", "STANDARD", "EXPRESS"]),
-        "child": st.sampled_from(["succeed", "succeed", "two_step", "fail_task", "fail_state", "slow_wait", "slow_task", "slow_nested"]),
+        "child": st.sampled_from(["succeed", "succeed", "two_step", "fail_task", "fail_state", "slow_wait", "slow_task", "slow_nested", "wait_then_slow_task"]),
         "child_exists": st.sampled_from([True] * 9 + [False]),
         "child_delay": st.sampled_from([0, 0.5, 3, 8]),
         "shape": st.sampled_from(["plain", "plain", "plain", "parallel", "parallel", "map"]),
@@ -848,6 +858,19 @@ def main(tier, seed, replay=None):
         camp.write_evidence = False
         return camp.finish()
     camp.run_witnesses(replay_case)
+    # directed: a synchronous child that is past an elapsed Wait and blocked on a Task when the parent lets go of it (time-out, failing sibling)
+    for form in ("sync", "sync2", "sdk_sync"):
+        for shape, extra_ in (("plain", {"timeout": 5}), ("parallel", {"timeout": None, "sib_ok": False, "sib_delay": 6}), ("parallel", {"timeout": 5, "sib_ok": True, "sib_delay": 0.25})):
+            sc = dict({"family": "child", "form": form, "parent_type": "STANDARD", "child_type": "EXPRESS" if form == "sdk_sync" else "STANDARD", "child": "wait_then_slow_task", "child_exists": True,
+                       "child_delay": 0, "shape": shape, "child_input": {"a": 1}, "name": None, "resource_region": "local", "schedule": []}, **extra_)
+            try:
+                fails = run_scenario(sc)
+            except Exception as e:
+                camp.harness_error("directed scenario %s crashed: %r" % (json.dumps(sc), e))
+                continue
+            camp.case(sc, nontrivial=True, classes=classes(sc) + ["directed"])
+            for b, d in fails:
+                camp.fail(b, sc, d)
     if tier == "thorough":
         run_shards(camp, __name__, "shard", 16, examples=1500)
     else:
